@@ -346,6 +346,9 @@ def shard(ctx):
                     exp = "PASS" if r != neg else "FAIL"
                     ctext = "s%d %s %s" % (k, "!=" if neg else "==", gen.glit({"$re": rx}))
                     cases.append(("r%d" % len(cases), ctext, exp, s))
+                    # the pattern bound to a variable: on the right, and on the LEFT of the comparison (`==` is symmetric)
+                    cases.append(("r%d" % len(cases), "let re = %s\n    s%d %s %%re" % (gen.glit({"$re": rx}), k, "!=" if neg else "=="), exp, s))
+                    cases.append(("r%d" % len(cases), "let re = %s\n    %%re %s s%d" % (gen.glit({"$re": rx}), "!=" if neg else "==", k), exp, s))
             st, res, text = run_file(ctx, [(c[0], c[1]) for c in cases], doc)
             if st is None:
                 ctx.inconclusive("regex-file-error")
